@@ -102,6 +102,31 @@ def run_concurrent(run, name, cases, rule):
         shutil.rmtree(tmp, ignore_errors=True)
 
 
+def run_start_at_boundary(run, name, cases):
+    tmp = common.scratch_dir('c13s')
+    try:
+        common.write_lines(tmp + '/c', cases)
+        rc, li = common.run_impl('c13s', tmp + '/c', tmp + '/i', timeout=900)
+        io = common.read_lines(tmp + '/i')
+        run.obligations += 1
+        if rc != 0 or len(io) != len(cases):
+            run.add_violation('harness-error', 'c13s rc=%s %s' % (rc, li[-1000:]), [li[-2000:]], no_input=True)
+            return
+        bad = [(c, o) for c, o in zip(cases, io) if len(o.split()) < 3 or o.split()[2] != '0']
+        for c, o in bad[:3]:
+            run.add_violation('oracle:' + name, 'a write issued one at a time after an interval boundary is not in the file named for the new interval (appender started at the boundary): ' + o[:400],
+                              ['family c13s', 'case ' + c, 'impl ' + o[:1500]])
+        if not bad:
+            run.discharged += 1
+        starts = sum(int(o.split()[0]) for o in io if o.split())
+        straddles = sum(int(o.split()[1]) for o in io if len(o.split()) > 1)
+        run.stream(name, starts, straddles, False, 'fresh appenders started back to back across real 1 s boundaries (from 300 us before to 150 us after), one write to each 250 ms after the boundary; '
+                   'oracle: the line is in exactly one file and that file is named for the second of the write; non-trivial = Start calls that began before the boundary and returned after it')
+        run.coverage['samples'].append({'stream': name, 'case': cases[0], 'observation': io[0][:300]})
+    finally:
+        shutil.rmtree(tmp, ignore_errors=True)
+
+
 def check(run):
     rng = run.rng
     quick = run.tier == 'quick'
@@ -112,16 +137,19 @@ def check(run):
     cc = ['%d %d %d %d 0 0' % (rng.choice([1, 1, 2]), rng.choice([1, 2, 4, 8, 16]), rng.choice([2, 3, 4]), rng.choice([0, 40, 2000])) for _ in range(10 if quick else 200)]
     run_concurrent(run, 'c13/concurrent', cc,
         '1-16 concurrent writers crossing 2-4 real boundaries; oracle: every completed write whole, exactly once, in exactly one file app.log.<14 digits>, and no file contains a write completed before the second in its name')
+    run_start_at_boundary(run, 'c13/start-at-boundary', ['%d 256' % (3 if quick else 40)])
     return 'see streams'
 
 
 def replay(run, path):
     lines = common.read_lines(path)
     cases = [l[5:] for l in lines if l.startswith('case ')]
-    fam = 'c13c' if any('family c13c' in l for l in lines) else 'c13'
+    fam = 'c13s' if any('family c13s' in l for l in lines) else 'c13c' if any('family c13c' in l for l in lines) else 'c13'
     r = common.Run('C13', 'quick', 0)
     if fam == 'c13':
         run_sequential(r, 'c13/replay', cases, 'replay')
+    elif fam == 'c13s':
+        run_start_at_boundary(r, 'c13/replay', cases)
     else:
         run_concurrent(r, 'c13/replay', cases, 'replay')
     for v in r.violations:
